@@ -161,22 +161,24 @@ func (r *verifRun) inboxR2(to int) (network.RoundMessages[*Round2Broadcast, *Par
 	return mb.Freeze(), mu.Freeze()
 }
 
-// round3 runs Round3 for party i (errors are recorded, not asserted).
-func (r *verifRun) round3(i int) error {
+// round3 runs Round3 for party i (an error is returned, not asserted) and files the unicasts;
+// complete reports that there is one for every peer.
+func (r *verifRun) round3(i int) (err error, complete bool) {
 	mb, mu := r.inboxR2(i)
 	u, err := r.p[i].Round3(mb, mu)
 	if err != nil {
-		return err
+		return err, false
 	}
+	complete = u.Size() == len(r.ids)-1
 	for j := range r.ids {
 		if j == i {
 			continue
 		}
 		m, ok := u.Get(r.ids[j])
-		verifAssert("r3.unicast_for_every_peer", ok)
+		complete = complete && ok
 		r.r3u[i][j] = m
 	}
-	return nil
+	return nil, complete
 }
 
 func (r *verifRun) inboxR3(to int) network.RoundMessages[*Round3P2P, *Participant] {
@@ -200,7 +202,9 @@ func (r *verifRun) honest() {
 	r.round1()
 	r.round2()
 	for i := range r.ids {
-		verifAssert("r3.noerr", r.round3(i) == nil)
+		err, complete := r.round3(i)
+		verifAssert("r3.noerr", err == nil)
+		verifAssert("r3.unicast_for_every_peer", complete)
 	}
 	for i := range r.ids {
 		r.round4(i)
@@ -345,12 +349,16 @@ func verifMask32() [32]byte {
 }
 
 // verifMaskByte is the difference the task names: one symbolic non-zero byte at a symbolic
-// position.
+// position (a special case of verifMask32; the position is a symbolic index, no fork).
 func verifMaskByte() [32]byte {
 	var m [32]byte
 	d := verifU8()
 	verifAssume(d != 0)
-	m[verifLen(0, 31)] = d
+	pos := verifU8()
+	verifAssume(pos < 32)
+	for i := range m {
+		m[i] = uint8(verifIteU64(uint8(i) == pos, uint64(d), 0))
+	}
 	return m
 }
 
@@ -386,7 +394,8 @@ func verifFaultRound3(ids []sharing.ID, dev, vic, what int, mask [32]byte) {
 	r.round1()
 	r.round2()
 	for i := range ids {
-		verifAssert("fault.r3.honest_rounds_noerr", r.round3(i) == nil)
+		err, complete := r.round3(i)
+		verifAssert("fault.r3.honest_rounds_noerr", err == nil && complete)
 	}
 	honest := *r.r3u[dev][vic]
 	bad := honest
@@ -430,7 +439,7 @@ func verifFaultRound2(ids []sharing.ID, dev, what int, mask [32]byte) {
 		if i == dev {
 			continue
 		}
-		err := r.round3(i)
+		err, _ := r.round3(i)
 		verifAssert("fault.r2.recipient_round3_errors", err != nil)
 		verifAssert("fault.r2.identifiable_abort_names_exactly_deviator__premise_CR", verifBlamed(err, ids[dev]))
 	}
@@ -484,7 +493,8 @@ func H_sessionsetup_fault_nopremise_INCONCLUSIVE() {
 	r.round1()
 	r.round2()
 	for i := range ids {
-		verifAssert("nopremise.honest_rounds_noerr", r.round3(i) == nil)
+		err, complete := r.round3(i)
+		verifAssert("nopremise.honest_rounds_noerr", err == nil && complete)
 	}
 	bad := *r.r3u[2][0]
 	bad.PairwiseContribution = xor32(bad.PairwiseContribution, verifMask32())
@@ -514,7 +524,9 @@ func H_sessionsetup_blame_MUSTFAIL() {
 	r.round1()
 	r.round2()
 	for i := range ids {
-		r.round3(i)
+		if err, _ := r.round3(i); err != nil {
+			return
+		}
 	}
 	bad := *r.r3u[2][0]
 	bad.PairwiseContribution[0] ^= 1
